@@ -240,8 +240,40 @@ fn gen_case(rng: &mut Rng) -> Case {
         let mut cfg = base.clone();
         cfg.tr = rng.byte();
         cfg.quant = 1 + rng.below(31) as u8;
-        let kind = rng.below(100);
+        let mut kind = rng.below(100);
+        // rare, expensive classes first (boundary-value ladder, see mon/ladder.rs)
+        let rare = rng.below(300);
+        if rare < 3 {
+            kind = 200 + rare;
+        }
         let (bytes, class): (Vec<u8>, &'static str) = match kind {
+            200 | 201 if sorenson => {
+                // extreme picture dimensions / macroblock counts (within the memory exclusion), valid or mutated
+                let mut lr = Rng::new(rng.next(), 7);
+                let dims = crate::mon::ladder::boundary_dims(&mut lr, false);
+                let (w, h) = *rng.pick(&dims);
+                let v = rng.below(2) as u8;
+                let pei = if rng.chance(1, 6) { *rng.pick(&[255usize, 256, 257, 1000]) } else { 0 };
+                let c2 = crate::mon::ladder::cfg_for(rng, Flavour::Sor(v), w, h, pei);
+                let disp = rng.chance(1, 3);
+                let cut = if rng.chance(1, 2) { Some(rng.below(5000) as usize) } else { None };
+                let p = if have_ref && rng.chance(1, 3) { crate::mon::ladder::large_inter(rng, &c2, disp, cut) } else { crate::mon::ladder::large_intra(rng, &c2) };
+                let b = p.encode();
+                if kind == 201 {
+                    let (b2, _) = mutate(rng, b, &[]);
+                    (b2, "ladder-size-mutated")
+                } else {
+                    (b, "ladder-size")
+                }
+            }
+            200..=202 => {
+                // long DQUANT runs towards a clamp
+                let fl = if sorenson { Flavour::Sor(rng.below(2) as u8) } else { Flavour::StdPlus };
+                let up = rng.chance(1, 2);
+                let side = 8 + rng.below(5) as usize;
+                let p = crate::mon::ladder::dquant_run(rng, fl, up, side);
+                (p.encode(), "dquant-run")
+            }
             0..=9 => {
                 let p = gen_intra(rng, &cfg);
                 have_ref = true;
@@ -742,7 +774,7 @@ pub fn run(ctx: &Ctx) -> (Report, String) {
     if ctx.is_main() {
         rep.require("decode_calls", if ctx.tier == Tier::Quick { 1_000_000 } else { 10_000_000 } * ctx.scale_pct / 100);
         rep.require("mb_loop_iterations_observed", 1_000_000 * ctx.scale_pct / 100);
-        for k in ["outcome=Ok", "class=mutated", "class=extra-macroblocks", "class=size-change", "class=umv-chain", "class=degenerate-header", "history_mode=one-reader", "options=sorenson:true/scal:false", "options=sorenson:false/scal:false", "options=sorenson:true/scal:true", "options=sorenson:false/scal:true"] {
+        for k in ["class=ladder-size", "class=dquant-run", "outcome=Ok", "class=mutated", "class=extra-macroblocks", "class=size-change", "class=umv-chain", "class=degenerate-header", "history_mode=one-reader", "options=sorenson:true/scal:false", "options=sorenson:false/scal:false", "options=sorenson:true/scal:true", "options=sorenson:false/scal:true"] {
             rep.require(k, 100 * ctx.scale_pct / 100);
         }
     }
